@@ -298,6 +298,12 @@ for ent_ in req.get('structs', []):
                     cs = [sorted(cs)[0]]
             except Exception:
                 pass
+        if len(cs) > 1 and scopes:
+            # the class of a method that takes / produces the value IS one of the candidates (e.g. the converting
+            # constructor const_iterator(const iterator&) is a member of the const_iterator class itself)
+            inter = [c for c in cs if c in scopes]
+            if len(inter) == 1:
+                cs = inter
         if len(cs) == 1:
             t = gdb.lookup_type(cs[0])
         elif len(cs) == 0 and q:
